@@ -3,7 +3,12 @@ virtual tree knows (stub SimpleOperationExecutor.is_dir/is_file), the real metho
 object with a real FileBackups (os.listdir of the module is made to return sorted names, as the model assumes).
 Outcome (returns / IsADirectoryError), the resulting tree and the undo log must equal the model's.  On the real side
 the property is judged as well: nothing the virtual tree knows is touched, and no regular file disappears without
-being in the undo log."""
+being in the undo log.
+
+With `failAt` in the case (C14) the k-th mutating call the method makes - the os.rename of back_up_and_remove, the
+os.rmdir of a cleared directory - raises OSError(EIO), and the model is FB.MakeRoomF (theorems makeRoomF_moved,
+makeRoomF_no_file_lost, makeRoomF_raw, makeRoomF_none): outcome (returns / IsADirectoryError / the raw OSError),
+number of calls that went through, tree and undo log must agree, and the same real-side judgement applies."""
 import importlib
 import logging
 import os
@@ -65,7 +70,26 @@ def real_run(case):
     proxy = type(os)('os_sorted_listdir')
     proxy.__dict__.update({k: getattr(os, k) for k in dir(os) if not k.startswith('__')})
     proxy.listdir = lambda d: sorted(os.listdir(d))
+    fail_at = case.get('failAt')
+    calls = [0]
+
+    def counted(fn):
+        def w(*a, **kw):
+            if fail_at is not None and calls[0] == fail_at:
+                fail_at_fired.append(1)
+                raise OSError(5, 'injected fault', str(a[0]) if a else '')
+            calls[0] += 1
+            return fn(*a, **kw)
+        return w
+    fail_at_fired = []
+    bkproxy = type(os)('os_counted_rename')
+    bkproxy.__dict__.update({k: getattr(os, k) for k in dir(os) if not k.startswith('__')})
+    if fail_at is not None:
+        proxy.rmdir = counted(os.rmdir)
+        bkproxy.rename = counted(os.rename)
+        bkproxy.replace = counted(os.replace)
     saved_os = mod.os
+    saved_bkos = bkmod.os
     was = logging.root.manager.disable
     logging.disable(logging.CRITICAL)
     try:
@@ -87,29 +111,43 @@ def real_run(case):
                 _backups=backups)
             fake._make_room = lambda d, fn: fb.FileBuilder._make_room(fake, d, fn)
             mod.os = proxy
+            if fail_at is not None:
+                bkmod.os = bkproxy
             try:
                 fb.FileBuilder._make_room(fake, ab(case['dir']), ab(case['dir']))
                 outcome = 'ok'
             except IsADirectoryError:
                 outcome = 'IsADirectoryError'
+            except OSError as e:
+                if fail_at is None or not fail_at_fired or e.errno != 5:
+                    raise
+                outcome = 'OSError'
             finally:
                 mod.os = saved_os
+                bkmod.os = saved_bkos
             saved = []
             for orig, bak in backups._backups:
                 with open(bak) as fh:
                     saved.append([rel(orig), fh.read(), os.stat(bak).st_mtime_ns - BASE_NS])
             after = tree()
-        return {'outcome': outcome, 'tree': after, 'saved': saved, 'before': before}
+        return {'outcome': outcome, 'tree': after, 'saved': saved, 'before': before, 'calls': calls[0]}
     finally:
         mod.os = saved_os
+        bkmod.os = saved_bkos
         logging.disable(was)
         shutil.rmtree(root, ignore_errors=True)
 
 
-def run(tier, rep, salt=0):
+def run(tier, rep, salt=0, faults=False):
     n = 400 if tier == 'quick' else 20000
     rng = random.Random(core.seed() * 49979693 + 3 + salt)
     cases = [gen_case(rng) for _ in range(n)]
+    if faults:
+        # every position of the fault for each tree: 0 .. (number of mutating calls of the fault-free run)
+        base = model.run_cases([dict(c, failAt=10 ** 6) for c in cases])
+        cases = [dict(c, failAt=k) for c, b in zip(cases, base) for k in range(b['calls'] + 1)]
+        if tier == 'quick':
+            cases = rng.sample(cases, min(len(cases), 700))
     outs = model.run_cases(cases)
     problems = []
     for c, mo in zip(cases, outs):
@@ -118,8 +156,8 @@ def run(tier, rep, salt=0):
         except Exception as e:      # the method can no longer be driven this way
             problems.append({'what': '_make_room cannot be driven as FB.MakeRoom describes it: %s: %s' % (type(e).__name__, str(e)[:200]), 'case': c})
             break
-        rep.count('makeroom_calls')
-        rep.count('makeroom_' + ro['outcome'])
+        rep.count('makeroom_calls' if not faults else 'makeroom_fault_runs')
+        rep.count(('makeroom_' if not faults else 'makeroom_fault_') + ro['outcome'])
         rep.count('makeroom_files_moved_aside', len(ro['saved']))
         # the property itself, on the real code
         a = {x[0]: x for x in ro['tree']}
@@ -136,6 +174,9 @@ def run(tier, rep, salt=0):
                 break
         got = {'outcome': ro['outcome'], 'tree': ro['tree'], 'saved': ro['saved']}
         exp = {'outcome': mo['outcome'], 'tree': mo['tree'], 'saved': mo['saved']}
+        if faults:
+            got['calls'] = ro['calls']
+            exp['calls'] = mo.get('calls')
         if got != exp:
-            problems.append({'what': 'FileBuilder._make_room and FB.MakeRoom.makeRoom differ', 'case': c, 'real': got, 'model': exp})
+            problems.append({'what': 'FileBuilder._make_room and FB.MakeRoom%s.makeRoom differ' % ('F' if faults else ''), 'case': c, 'real': got, 'model': exp})
     return problems
